@@ -14,7 +14,7 @@ MIN_EVALS = {"quick": 2500, "thorough": 60000}
 RULE = (
     "seeded random cases: grid of 1-3 axes with random position sets (2-4 cells), a random registry of non-uniform "
     "integer metrics over random subsets of axes x position tuples (complete / partial / only elsewhere), an array at a "
-    "random position tuple (shuffled dims, optional extra dim), a requested axis subset in random order. Verdicts: "
+    "random position tuple (shuffled dims, optional extra dim), a requested axis subset in random order; a fifth of the metrics also varies along another grid axis, and 15% of the multi-axis cases are curvilinear (dx(y,x), dy(y,x) on the same points, nothing registered for the pair). Verdicts: "
     "get_metric result in the model's acceptable set (exact-set at position, else interpolated with extension + warning, "
     "else partition products by level, per block at-position before interpolated), broadcastability, KeyError iff the "
     "model has no candidate; integrate (all axis orders), average (constant field, NaN data), derivative, cumint and "
@@ -55,10 +55,23 @@ def gen_case(rng, i, tier):
         for sub in [(a,) for a in axn] + rng.sample(list(itertools.combinations(axn, 2)), rng.randint(1, 2)):
             reg.append([list(sub), [[f"m{k}", [apos[a] for a in sub]]]])
             k += 1
+    curv = (not competing) and nax >= 2 and rng.random() < 0.15
+    forced_cross = {}
+    if curv:
+        # curvilinear grid: every one-axis metric varies along both horizontal axes and all sit on the same points
+        # (dx(y, x), dy(y, x)); nothing is registered for the pair, so its metric is the product of the two, each one
+        # brought to the array's position on its own
+        a, b = rng.sample(axn, 2)
+        mp = {a: rng.choice(list(cm[a])), b: rng.choice(list(cm[b]))}
+        reg = [[[a], [["m0", [mp[a]]]]], [[b], [["m1", [mp[b]]]]]]
+        forced_cross = {"m0": [[b, mp[b]]], "m1": [[a, mp[a]]]}
+        apos = {x: rng.choice(list(cm[x])) for x in axn}
     rng.shuffle(reg)
-    if not competing:
+    if not competing and not curv:
         apos = {a: rng.choice(list(cm[a])) for a in axn}
     q = rng.sample(axn, rng.randint(1, nax)) if not competing else rng.sample(axn, 3)
+    if curv:
+        q = rng.sample([a, b], 2) + ([x for x in axn if x not in (a, b)] if rng.random() < 0.2 else [])
     adims = [cm[a][apos[a]] for a in axn if a in q or rng.random() < 0.6]
     extra = {}
     if rng.random() < 0.4:
@@ -67,8 +80,17 @@ def gen_case(rng, i, tier):
     rng.shuffle(adims)
     # a metric may depend on a non-grid dimension too (a time-dependent cell thickness): only when the array has it
     tdep = [nm for _, lst in reg for nm, _ in lst if rng.random() < 0.15] if "time" in extra else []
+    # a metric may also vary along a grid axis it does not belong to (dx(y, x) of a curvilinear grid registered for X):
+    # only along axes of which the array carries a dimension, so that the metric can be brought to the array's position
+    cross = dict(forced_cross)
+    for sub, lst in ([] if curv else reg):
+        for nm, _ in lst:
+            others = [b for b in axn if b not in sub and cm[b][apos[b]] in adims]
+            if others and rng.random() < 0.2:
+                b = rng.choice(others)
+                cross[nm] = [[b, rng.choice(list(cm[b])) if rng.random() < 0.4 else apos[b]]]
     return {"layout": layout, "registry": reg, "apos": apos, "query": q, "adims": adims, "extra": extra,
-            "mseed": rng.getrandbits(31), "dseed": rng.getrandbits(31), "periodic": rng.random() < 0.3, "time_dependent": tdep,
+            "mseed": rng.getrandbits(31), "dseed": rng.getrandbits(31), "periodic": rng.random() < 0.3, "time_dependent": tdep, "cross": cross,
             # the data may be integer-typed (counts), a boolean mask or single precision: "for all data values"
             "dtype": rng.choice(["float64"] * 7 + ["int64", "bool", "float32"])}
 
@@ -84,6 +106,7 @@ def build(desc):
         names = []
         for nm, pos in lst:
             dims = [cm[a][p] for a, p in zip(sub, pos)]
+            dims = dims + [cm[b][pb] for b, pb in desc.get("cross", {}).get(nm, [])]
             if nm in desc.get("time_dependent", []):
                 dims = dims + ["time"]
             shp = [ds.sizes[d] for d in dims]
